@@ -27,6 +27,9 @@ FILES = [
     "crates/trust-runtime/src/bytecode/encode.rs", "crates/trust-runtime/src/runtime/cycle.rs",
     "crates/trust-runtime/src/memory.rs", "crates/trust-runtime/src/io.rs", "crates/trust-runtime/src/harness/build.rs",
 ]
+# every source file of the directories that take part in compiling a configuration and running a cycle
+DIRS = ["crates/trust-runtime/src/harness", "crates/trust-runtime/src/bytecode/encoder", "crates/trust-runtime/src/runtime", "crates/trust-runtime/src/eval"]
+EXTRA = ["crates/trust-runtime/src/task.rs", "crates/trust-runtime/src/instance.rs", "crates/trust-runtime/src/bytecode/metadata.rs"]
 HASHY = re.compile(r"\b(?:Fx)?Hash(?:Map|Set)\b")
 LOOKUP = {"get", "get_mut", "insert", "contains_key", "contains", "entry", "remove", "len", "is_empty", "clear",
           "new", "default", "with_capacity", "clone", "reserve", "extend", "get_or_insert_with", "or_insert",
@@ -34,6 +37,14 @@ LOOKUP = {"get", "get_mut", "insert", "contains_key", "contains", "entry", "remo
           "as_ref", "as_mut", "unwrap_or_default", "take", "shrink_to_fit"}
 ORDER = {"iter", "iter_mut", "keys", "values", "values_mut", "into_iter", "drain", "retain", "into_keys", "into_values"}
 INSENSITIVE = re.compile(r"\.(any|all|count|sum|min|max|min_by_key|max_by_key)\s*\(|\.collect::<\s*(?:std::collections::)?(?:Fx)?(?:HashSet|HashMap|BTreeMap|BTreeSet)|\.(len|is_empty)\s*\(\)")
+
+
+# order-exposing uses that were read and found to have an order-independent effect; the entry is void as soon as
+# the enclosing function body changes (sha1 of the whitespace-normalised body)
+REVIEWED = {
+    ("crates/trust-runtime/src/harness/config.rs", "retain_by_type", "for-in"):
+        ("ebde9758", "each iteration only fills the Unspecified retain policy of the variables of ONE program definition, keyed by the resolved type name; different iterations touch different definitions"),
+}
 
 
 class TranslateError(Exception):
@@ -107,7 +118,19 @@ def classify(st, m_end, stmts, si, meth):
 
 def translate(repo):
     sites = []
-    for rel in FILES:
+    files = list(FILES) + EXTRA
+    for d in DIRS:
+        full = os.path.join(repo, d)
+        if os.path.isdir(full):
+            for root, _, names in os.walk(full):
+                for n in sorted(names):
+                    if n.endswith(".rs"):
+                        files.append(os.path.relpath(os.path.join(root, n), repo))
+    seen = set()
+    for rel in files:
+        if rel in seen:
+            continue
+        seen.add(rel)
         path = os.path.join(repo, rel)
         if not os.path.exists(path):
             continue
@@ -116,12 +139,16 @@ def translate(repo):
         for header, body in blocks(text, r"\bfn\s+\w+"):
             local = fn_locals(header, body)
             stmts = statements(body)
+            import hashlib
+            body_hash = hashlib.sha1(" ".join(body.split()).encode()).hexdigest()[:8]
             for si, st in enumerate(stmts):
                 for name in local:
                     for m in re.finditer(r"(?<![\w.])%s\s*\.\s*([a-z_][a-z0-9_]*)\s*\(" % re.escape(name), st):
                         sites.append((rel, name, m.group(1), classify(st, m.end(), stmts, si, m.group(1)), " ".join(st.split())[:140]))
                     if re.search(r"\bfor\b[^;]*\bin\s+&?(?:mut\s+)?%s\s*$" % re.escape(name), st):
-                        sites.append((rel, name, "for-in", "order_exposed", " ".join(st.split())[:140]))
+                        rev = REVIEWED.get((rel, name, "for-in"))
+                        cls = "order_insensitive" if rev and rev[0] == body_hash else "order_exposed"
+                        sites.append((rel, name, "for-in", cls, " ".join(st.split())[:140] + " [fn body %s]" % body_hash))
                 for name in fields:
                     for m in re.finditer(r"\bself\s*\.\s*%s\s*\.\s*([a-z_][a-z0-9_]*)\s*\(" % re.escape(name), st):
                         sites.append((rel, "self." + name, m.group(1), classify(st, m.end(), stmts, si, m.group(1)), " ".join(st.split())[:140]))
